@@ -54,6 +54,15 @@ CHECKS = [
              "valid file (Trace_Writer with err_io), and the recorded write_vectored call sequences are validated by TLC (Trace_Vectored).",
      "note": TLC_NOTE,
      "technique": "TLA+ model of the vectored write loop checked by TLC + scheduled sinks under the real writer, call sequences and resulting files trace-validated by TLC"},
+    {"property_id": "C04", "level": "model_checking", "design_ref": "DESIGN.md §6 C04",
+     "text": "BlockDecoder.tla is the decoder as an explicit machine (block header loop, per-element countdown, cumulative max_seq_size, depth budget). For ALL byte "
+             "strings over an 8-byte alphabet (length <= 3 / 4) x 8 schemas x limit configurations TLC checks Bounded, agreement with the functional Dec, and "
+             "that a lexicographic measure strictly decreases at every step (termination and a step bound in len and the limits); a per-block-count mutant is "
+             "rejected. The terminal states are replayed on the real decoder in small-stack child processes; hostile inputs (huge / negative counts and "
+             "lengths spliced at every varint site, floods on recursive schemas, max_alloc_size around field lengths) are judged by TLC's Dec, with allocation, "
+             "peak-memory, refill-count and time observations checked against bounds in the input length and the limits.",
+     "note": TLC_NOTE + " Crashes, allocations and work are observations (exit status, counting allocator, counters), not modelled in TLA+.",
+     "technique": "TLA+ explicit-state decoder machine with a decreasing-measure action property checked by TLC; exhaustive short inputs replayed on the real decoder; hostile inputs trace-validated"},
     {"property_id": "C05", "level": "model_checking", "design_ref": "DESIGN.md §6 C05",
      "text": "TLC model-checks the per-codec encode loops against each library's status protocol (CodecLoop.tla; the loops as found before the "
              "repairs are rejected) and the writer state machine. Real code: op sequences x 6 codecs x levels (incl. above-max) x block sizes, every file read "
